@@ -444,7 +444,7 @@ comment_lookalike_pair = lookalike_pair
 ILLEGAL_CHARS = ["@", ";", ".", "=", "$", "#", "?", "\\", "`", "~", "[", "]", "%", "&", "|", "^"]
 
 
-def gen_invalid(rng, base, tid):
+def gen_invalid(rng, base, tid, kind=None):
     """A text intended to be rejected, derived from `base` (a Program) by one mutation.
     Whether the tree really rejects it is decided by the tree (pristine judgement)."""
     q = Program()
@@ -455,7 +455,7 @@ def gen_invalid(rng, base, tid):
     toks = [_relabel(t, base.tid, tid) for t in base.tokens]
     kinds = ["delete", "duplicate", "transpose", "truncate", "illegal", "prefix", "suffix", "two_defs",
              "empty", "reserved_name", "unclosed_comment", "unclosed_string", "shared_field", "garbage", "huge_literal"]
-    k = rng.choice(kinds)
+    k = kind or rng.choice(kinds)
     q.note = k
     if k == "delete":
         i = rng.randrange(len(toks))
